@@ -176,6 +176,15 @@ MV deep_mv(Rng& r, unsigned depth) {
   return cur;
 }
 
+// ---------------------------------------------------------------- buffers beyond 4 GiB
+#include <sys/mman.h>
+bool g_rec_no_payload = false;
+uint8_t* huge_region() {
+  static uint8_t* r = nullptr; static bool tried = false;
+  if (!tried) { tried = true; void* p = mmap(nullptr, HUGE_REGION_BYTES, PROT_READ | PROT_WRITE, MAP_PRIVATE | MAP_ANONYMOUS | MAP_NORESERVE, -1, 0); if (p != MAP_FAILED) r = (uint8_t*)p; }
+  return r;
+}
+
 // ---------------------------------------------------------------- synthetic locale
 #include <clocale>
 #include <sys/stat.h>
